@@ -32,6 +32,11 @@ def gen_ops(rng, proto, nops, with_timeout):
             req = (req[0], req[1], rng.randrange(1, 6), req[3], req[4])
         if rng.random() < 0.08:
             req = rng.choice([("WMR", rng.randrange(65536), []), ("WMC", rng.randrange(65536), [])])   # empty multi-writes
+        elif rng.random() < 0.12:
+            # the largest legal quantities (and one below): the blocking client sends them exactly as the async client does
+            a = rng.randrange(65536)
+            req = rng.choice([("RHR", a, 125), ("RHR", a, 124), ("RIR", a, 125), ("RIR", a, 124), ("RC", a, 2000), ("RDI", a, 2000), ("RWMR", a, 125, a ^ 1, [rng.randrange(65536) for _ in range(121)]),
+                              ("RWMR", a, 124, a ^ 1, [7]), ("WMR", a, [rng.randrange(65536) for _ in range(123)]), ("WMC", a, [rng.random() < 0.5 for _ in range(1968)])])
         typed = req[0] not in ("CU", "RSI") and rng.random() < 0.6
         tid = ncall & 0xFFFF
         fc = mb.req_fc(req)
